@@ -199,13 +199,41 @@ impl<W: 'static, R: 'static, T: 'static> XGenerator<W, R, T> {
                 })
             }),
             Self::Slice(gen, start, end) => either_g({
-                let inner: BIter<_, _, _> = Box::new(to_native!(gen, Self)._iter(ns, rt));
-                if let Some(end) = end {
-                    // the slice holds absolute bounds: [start, end)
-                    Either::Left(inner.skip(*start).take(end.saturating_sub(*start)))
-                } else {
-                    Either::Right(inner.skip(*start))
-                }
+                let mut inner: BIter<_, _, _> =
+                    Box::new(to_native!(gen, Self)._iter(ns, rt.clone()));
+                // the slice holds absolute bounds: [start, end)
+                let mut to_skip = *start;
+                let mut remaining = end.map(|end| end.saturating_sub(*start));
+                let mut budget = rt.limits.search_iter();
+                iter::from_fn(move || {
+                    // skipped elements are pulled like any other: they use the search budget, and
+                    // a violation raised while producing them is not lost
+                    while to_skip > 0 {
+                        to_skip -= 1;
+                        let skipped = budget
+                            .next()
+                            .unwrap_or(Ok(()))
+                            .and_then(|()| inner.next().transpose());
+                        match skipped {
+                            Ok(Some(_)) => {}
+                            Ok(None) => {
+                                to_skip = 0;
+                                remaining = Some(0);
+                            }
+                            Err(violation) => {
+                                to_skip = 0;
+                                remaining = Some(0);
+                                return Some(Err(violation));
+                            }
+                        }
+                    }
+                    match remaining.as_mut() {
+                        Some(0) => return None,
+                        Some(r) => *r -= 1,
+                        None => {}
+                    }
+                    inner.next()
+                })
             }),
             Self::Filter(gen, func) => either_h({
                 let inner: BIter<_, _, _> = Box::new(to_native!(gen, Self)._iter(ns, rt.clone()));
